@@ -115,6 +115,12 @@ func ReadFromSRT(i io.Reader) (o *Subtitles, err error) {
 		}
 	}
 
+	// Reading failed
+	if err = scanner.Err(); err != nil {
+		err = fmt.Errorf("astisub: scanning failed: %w", err)
+		return
+	}
+
 	// Remove trailing empty lines of the last subtitle
 	srtRemoveTrailingEmptyLines(s)
 	return
